@@ -9,13 +9,15 @@ Local Open Scope Z_scope.
 Inductive res (A : Type) : Type :=
 | Ok (a : A)
 | Abort            (* detail::dynamic_check failed: exception / process abort *)
-| Diverge.         (* the code provably never terminates on this input *)
+| Diverge          (* the code provably never terminates on this input *)
+| Fault.           (* the access traps in hardware (null / guard page): crash, no abort *)
 Arguments Ok {A} a.
 Arguments Abort {A}.
 Arguments Diverge {A}.
+Arguments Fault {A}.
 
 Definition bind {A B} (r : res A) (f : A -> res B) : res B :=
-  match r with Ok a => f a | Abort => Abort | Diverge => Diverge end.
+  match r with Ok a => f a | Abort => Abort | Diverge => Diverge | Fault => Fault end.
 Notation "x <- r ;; k" := (bind r (fun x => k)) (at level 61, r at next level, right associativity).
 
 Definition check (b : bool) : res unit := if b then Ok tt else Abort.
